@@ -33,7 +33,7 @@ EXTRACT = ("theories/Extract/ExC11.v", "c11_driver.ml")
 TRUSTED = [
     "PARTIAL property. Proved for ALL inputs: the framing of the text format (Text/HumanText.v) and - new - the literal syntax of str / bytes / "
     "int values in plain form (Text/PyLiteral.v): C11_literal_value_roundtrip (every physical line of what _format_var shows is newline-free, "
-    "non-blank, does not end in a backslash, does not start with '[' or '#'; the stripped concatenation is not taken for a replacement token / "
+    "non-blank, does not end in a backslash, does not start with '[', '#', '$' or '|'; the stripped concatenation is not taken for a replacement token / "
     "vector / UUID; the literal reader returns the value) and C11_text_roundtrip_concrete (from_human (to_human m) = m for every message of such "
     "values with NO hypothesis about values; remaining premises are structural: names are non-empty words, block names and the variable names of a "
     "block are distinct, flags < 2048). Still under the abstract per-value hypotheses var_ok (checked on every generated value by the 'wire' "
@@ -1275,8 +1275,8 @@ def literal_roundtrip_fails(im, v, ser: bool):
     if r:
         return r
     for l in lines:
-        if l.strip()[0] in "[#":
-            return "line starts with a bracket or a hash"
+        if l.strip()[0] in "[#$|":
+            return "line starts with a bracket, hash, dollar or bar"
     joined = "".join(l.strip() for l in lines)
     if re.match(r"\[\[(\w+)]]", joined) or joined.startswith("<") or re.match(r"\A\w+-\w+-.*", joined):
         return "taken for a replacement / vector / uuid"
@@ -1768,6 +1768,117 @@ def literal_values(ctx):
     return vals
 
 
+# --------------------------------------------------------------------------- safe mode with the REAL literal reader
+
+SAFE_EXPRS = [
+    # bare names and containers of them (what repr() shows for non-finite floats), then expressions built on them
+    "inf", "-inf", "nan", "(inf, nan, 1.0)", "[inf]", "{inf: nan}", "inf+1", "-inf - 1", "nan*0", "1 if nan else 0", "(2*3) if nan else 0",
+    "[inf][0]", "(inf,)[0]", "nan.__class__", "inf.real", "inf.__class__.__base__", "().__class__.__base__.__subclasses__() or inf",
+    "nan or 5", "inf and 5", "not nan", "inf if inf else inf", "f'{inf}'", "'%s' % inf", "lambda: inf", "[nan for nan in (1,)]",
+    # plain expressions
+    "1+1", "2*3", "-(-1)", "1 if 1 else 0", "[1][0]", "(1).real", "abs(-1)", "len('ab')", "__import__('os')", "().__class__", "'a'.upper()",
+    "'a' 'b'.upper()", "[x for x in (1,)]", "True and 1", "1 or 2", "1 < 2", "1 and inf", "(lambda: 1)()", "{*()}", "b'a'[0]", "~0", "2**3",
+    # literals (must be accepted, or rejected, without evaluation)
+    "1", "-1", "'a'", "b'a'", "(1, 2.5, -3)", "[1, 'a']", "{'a': 1}", "None", "True", "1e400", "-1e400",
+]
+
+
+def _is_expression(text):
+    """the text, as a Python expression, contains an operation (operator, call, attribute, subscript, comprehension, lambda,
+    conditional, f-string, name other than a constant-like bare name) - as opposed to a literal display"""
+    import ast as _ast
+    try:
+        tree = _ast.parse(text.strip(), mode="eval")
+    except SyntaxError:
+        return None
+
+    def lit(n):
+        if isinstance(n, _ast.Constant):
+            return True
+        if isinstance(n, _ast.Name):
+            return True       # a bare name is not an operation (whether a reader accepts `inf` is not this clause's business)
+        if isinstance(n, _ast.UnaryOp) and isinstance(n.op, (_ast.USub, _ast.UAdd)):
+            return lit(n.operand)
+        if isinstance(n, _ast.BinOp) and isinstance(n.op, (_ast.Add, _ast.Sub)) and isinstance(n.right, _ast.Constant) \
+                and isinstance(n.right.value, complex):
+            return lit(n.left)      # complex literals a+bj are literals for literal_eval
+        if isinstance(n, (_ast.Tuple, _ast.List, _ast.Set)):
+            return all(lit(e) for e in n.elts)
+        if isinstance(n, _ast.Dict):
+            return all(k is not None and lit(k) and lit(v) for k, v in zip(n.keys, n.values))
+        return False
+    return not lit(tree.body)
+
+
+def suite_safe_real(ctx):
+    res = CorrResult(suite="safe mode with the real literal reader: texts whose values are expressions (impl-level oracle)",
+                     rule="message texts (ChatFromViewer / ObjectUpdate fields) whose values are %d expression and literal texts incl. "
+                          "everything built on the bare names repr() shows for non-finite floats, with the operators '=' and '=|', parsed by "
+                          "the real from_human_string(safe=True) with the real ast module; eval/exec/compile/__import__ are shadowed in the "
+                          "module's namespace and subfield_eval is a recorder.  Clause: no evaluation entry point is reached, and a value "
+                          "text that contains an operation is rejected (never turned into a value).  non-trivial = texts with an operation"
+                          % len(SAFE_EXPRS))
+    im = impl()
+    mf = im.mf
+    n = nt = 0
+    seen = set()
+    for expr in SAFE_EXPRS:
+        is_expr = _is_expression(expr)
+        for op in ("=", "=|"):
+            for tmpl in ("OUT ChatFromViewer\n[AgentData]\nAgentID = 00000000-0000-0000-0000-000000000001\n"
+                         "SessionID = 00000000-0000-0000-0000-000000000002\n[ChatData]\nMessage = 'x'\nType = 1\nChannel %s %s\n",
+                         "OUT ChatFromViewer\n[AgentData]\nAgentID = 00000000-0000-0000-0000-000000000001\n"
+                         "SessionID = 00000000-0000-0000-0000-000000000002\n[ChatData]\nMessage %s %s\nType = 1\nChannel = 0\n",
+                         "IN ObjectUpdate\n[RegionData]\nRegionHandle = 1\nTimeDilation %s %s\n"):
+                text = tmpl % (op, expr)
+                calls = []
+
+                def rec(name):
+                    def f(*a, **k):
+                        calls.append(name)
+                        raise RuntimeError("evaluation entry point reached: " + name)
+                    return f
+                saved = {k: mf.__dict__.get(k, _MISSING) for k in ("eval", "exec", "compile", "__import__", "subfield_eval")}
+                mf.eval, mf.exec, mf.compile = rec("eval"), rec("exec"), rec("compile")
+                mf.__dict__["__import__"] = rec("__import__")
+                mf.subfield_eval = rec("subfield_eval")
+                outcome, val = "raised", None
+                try:
+                    try:
+                        m = im.H.from_human_string(text, safe=True)
+                        outcome = "parsed"
+                        try:
+                            blk = m["ChatData"][0] if m.name == "ChatFromViewer" else m["RegionData"][0]
+                            val = repr(blk.vars.get("Channel" if "Channel %s" % op in text else ("Message" if m.name == "ChatFromViewer" else "TimeDilation")))
+                        except Exception:
+                            val = "?"
+                    except BaseException as e:  # noqa
+                        if isinstance(e, (KeyboardInterrupt, SystemExit)):
+                            raise
+                finally:
+                    for k, v in saved.items():
+                        if v is _MISSING:
+                            mf.__dict__.pop(k, None)
+                        else:
+                            mf.__dict__[k] = v
+                n += 1
+                if is_expr:
+                    nt += 1
+                bad = None
+                if calls:
+                    bad = ("safe mode never evaluates: an evaluation entry point (%s) was reached" % calls[0], "safe-mode-eval")
+                elif is_expr and outcome == "parsed" and op == "=":
+                    bad = ("safe mode never evaluates: a value text containing an operation was turned into a value", "safe-mode-expression-accepted")
+                if bad and bad[1] not in seen:
+                    seen.add(bad[1])
+                    res.impl_violations.append({"clause": bad[0], "class": bad[1], "text": text, "value_text": expr, "got": val,
+                                                "entry_points": calls[:3]})
+    res.evaluations = n
+    res.distinct_nontrivial = nt
+    res.samples = [{"value_text": e} for e in SAFE_EXPRS[:4]]
+    return res
+
+
 def correspond(ctx):
     seeds = []
     r1 = suite_classes(ctx)
@@ -1784,7 +1895,8 @@ def correspond(ctx):
                      "to_human/from_human vs to_human_string/from_human_string on directly built messages and mutated texts (concrete messages suite)")
     ctx.notes.append("oracle-only: packed (=|) forms and their subfield serializers, uuid/vector/float values, replacement tokens (var_ok checked per "
                      "generated value by the wire suite); str.isprintable table (premise: no printable surrogate, checked exhaustively)")
-    return [r1, r2, r3, r4, r5]
+    r6 = suite_safe_real(ctx)
+    return [r1, r2, r3, r4, r5, r6]
 
 
 # --------------------------------------------------------------------------- search / replay
@@ -1885,6 +1997,11 @@ def replay(ctx, case):
         if r["status"] == "violation":
             return True, public_case(r)
         return False, "holds (%s)" % r.get("why", r["status"])
+    if cls in ("safe-mode-eval", "safe-mode-expression-accepted") and "value_text" in case:
+        r = suite_safe_real(ctx)
+        for v in r.impl_violations:
+            return True, v
+        return False, "no evaluation in safe mode"
     if "text" in case:
         ro, evals, hidden, exc = real_parse_symbolic(case["text"], True)
         if evals or hidden:
